@@ -234,7 +234,10 @@ func SelectAddrFromSubnet(seed []byte, net1 *net.IPNet) (net.IP, error) {
 	randBigInt.And(randBigInt, maskBigInt)
 	ipBigInt.Add(ipBigInt, randBigInt)
 
-	return net.IP(ipBigInt.Bytes()), nil
+	// FillBytes keeps leading zero bytes that big.Int.Bytes would drop.
+	ip := make(net.IP, addrLen/8)
+	ipBigInt.FillBytes(ip)
+	return ip, nil
 }
 
 func init() {
